@@ -119,6 +119,18 @@ def run(chk):
             ("write", "ENOSPC-stdout-byte-fills-buffer", "wr_fill()", {"stdout": "/dev/full", "pre": "fn wr_fill() { let i = 0; let r = null; while i < 3000 { r = write(stdout, byte(65)); if is_error(r) { return r; } i = i + 1; } return r; }"}),
             ("write", "EPIPE-stdout-newline-byte", "write(stdout, byte(10))", {"stdout": "epipe"}),
             ("write", "ENOSPC-stderr-big", "write(stderr2, %s)" % big, {"pre": "let stderr2 = open(\"/dev/full\", \"a\");"}),
+            ("write", "ENOSPC-big-byte-array", "write(fw, bigarr)", {"pre": "let fw = open(\"/dev/full\", \"w\"); let bigarr = encode_utf8(\"w\" * 10240);"}),
+            ("write", "ENOSPC-byte-array-after-buffered", "write(fw, bigarr)", {"pre": "let fw = open(\"/dev/full\", \"w\"); write(fw, \"abc\"); let bigarr = encode_utf8(\"w\" * 9000);"}),
+            ("write", "ENOSPC-big-packet", "write(fw, bigp)", {"pre": "let fw = open(\"/dev/full\", \"w\"); let bigp = pcap_read_next(pcap_open(%s));" % lit(os.path.join(work, "bigrec.pcap"))}),
+            ("pcap_open", "1-byte-file", "pcap_open(%s)" % lit(os.path.join(work, "stub1")), {}),
+            ("pcap_open", "2-byte-file", "pcap_open(%s)" % lit(os.path.join(work, "stub2")), {}),
+            ("pcap_open", "3-byte-file", "pcap_open(%s)" % lit(os.path.join(work, "stub3")), {}),
+            ("pcap_open", "4-byte-file", "pcap_open(%s)" % lit(os.path.join(work, "stub4")), {}),
+            ("pcap_open", "23-byte-file", "pcap_open(%s)" % lit(os.path.join(work, "stub23")), {}),
+            ("pcap_open", "magic-only-file", "pcap_open(%s)" % lit(os.path.join(work, "stubm")), {}),
+            ("pcap_stream", "1-byte-stdin", "pcap_stream(stdin)", {"stdin": b"\xd4"}),
+            ("pcap_stream", "3-byte-stdin", "pcap_stream(stdin)", {"stdin": b"\xd4\xc3\xb2"}),
+            ("pcap_stream", "magic-only-stdin", "pcap_stream(stdin)", {"stdin": b"\xd4\xc3\xb2\xa1"}),
             ("pcap_write", "ENOSPC-big", "pcap_write(pw, bigp)", {"pre": "let pw = pcap_open(\"/dev/full\", \"w\"); let bigp = pcap_read_next(pcap_open(%s));" % lit(os.path.join(work, "bigrec.pcap"))}),
             # a pipe whose reader is gone (EPIPE; SIGPIPE is ignored by the Rust runtime, so the write itself fails)
             ("write", "EPIPE-stdout-big", "write(stdout, %s)" % big, {"stdout": "epipe"}),
@@ -135,6 +147,9 @@ def run(chk):
             ("pcap_open", "EACCES-w", "pcap_open(%s, \"w\")" % lit(os.path.join(rodir, "new.pcap")), {"uid": "nobody"}),
         ]
         open(os.path.join(work, "bigrec.pcap"), "wb").write(pkt.pcap_file([(1, 2, b"B" * 20000)]))
+        for nm, nbytes in (("stub1", 1), ("stub2", 2), ("stub3", 3), ("stub4", 4), ("stub23", 23)):
+            open(os.path.join(work, nm), "wb").write(pkt.pcap_header()[:nbytes])
+        open(os.path.join(work, "stubm"), "wb").write(b"\xd4\xc3\xb2\xa1")
         # healthy calls that must NOT be error objects (guards against "everything is an error")
         H = [
             ("open", "healthy", "open(%s)" % lit(existing), {}),
